@@ -207,6 +207,15 @@ def g_c11(tier, seed):
                 samples=[dict(what="Affine.scale", magnitude=100.0, dtype="float32")], failures=fails[:5], errors=[])
 
 
+@grid("C12")
+def g_c12(tier, seed):
+    cnt = []
+    fails = rt.rt_c12(tier, count=cnt)
+    return dict(evaluations=cnt[0] if cnt else 0, distinct_nontrivial=cnt[0] if cnt else 0,
+                rule="real nested wrappers (Where / BijectionReparam / Lambda / NonTrainable inside containers and modules): value, idempotence, wrapper-free; wrapped vs pre-unwrapped model methods; frozen subtrees (non_trainable on base / bijection) get zero gradient and are bit-identical after fit_to_data and fit_to_variational_target with adam, adamw, sgd+weight decay; non-floating leaves identical",
+                samples=[dict(loop="fit_to_variational_target", optimizer="adamw")], failures=fails[:5], errors=[])
+
+
 @grid("C17")
 def g_c17(tier, seed):
     cnt = []
